@@ -18,3 +18,40 @@ vp_sub_oracle(size_t n, const sub0_topic *t0, const sub0_topic *t1, const sub0_t
 	return ((n > 0 && vp_sub_prefix(t0, body, blen)) || (n > 1 && vp_sub_prefix(t1, body, blen)) ||
 	    (n > 2 && vp_sub_prefix(t2, body, blen)));
 }
+/* topic t is exactly the byte string buf[0..sz) */
+static bool
+vp_topic_eq(const sub0_topic *t, const uint8_t *buf, size_t sz)
+{
+	if (t->len != sz) {
+		return (false);
+	}
+	for (size_t i = 0; i < SUB_MAXTOPIC; i++) {
+		if (i < sz && ((const uint8_t *) t->buf)[i] != buf[i]) {
+			return (false);
+		}
+	}
+	return (true);
+}
+/* index of the first topic equal to buf[0..sz), or 3 if there is none */
+static size_t
+vp_sub_find(size_t n, const sub0_topic *t0, const sub0_topic *t1, const sub0_topic *t2, const uint8_t *buf, size_t sz)
+{
+	if (n > 0 && vp_topic_eq(t0, buf, sz)) {
+		return (0);
+	}
+	if (n > 1 && vp_topic_eq(t1, buf, sz)) {
+		return (1);
+	}
+	if (n > 2 && vp_topic_eq(t2, buf, sz)) {
+		return (2);
+	}
+	return (3);
+}
+/* ORACLE under the topics that remain when topic number skip is taken away */
+static bool
+vp_sub_oracle_skip(size_t n, const sub0_topic *t0, const sub0_topic *t1, const sub0_topic *t2, size_t skip,
+    const uint8_t *body, size_t blen)
+{
+	return ((n > 0 && skip != 0 && vp_sub_prefix(t0, body, blen)) ||
+	    (n > 1 && skip != 1 && vp_sub_prefix(t1, body, blen)) || (n > 2 && skip != 2 && vp_sub_prefix(t2, body, blen)));
+}
